@@ -427,7 +427,7 @@ def w_main(tdk: int, sk: int) -> str:
 
 def obligations(tier):
     return kpair.obligations(tier) + [
-        CH('K_parsers_agree_all_contents', MOD, 'k_parsers', timeout=600 if tier == 'quick' else 2400, engine='K', regime='traced',
+        CH('K_parsers_agree_all_contents', MOD, 'k_parsers', timeout=900 if tier == 'quick' else 6000, engine='K', regime='traced',
            encodes=['parse_path', 'parse_original_location', 'ParseTrashInfo.parse_trashinfo', 'parse_deletion_date', 'maybe_parse_deletion_date'],
            stubs=['unquote -> recorder', 'datetime.strptime -> recorder'],
            bounds='3 lines in every order: one = one of 9 prefixes + ANY value of len<=2 without newline, two = one of 4 prefixes + one of %d values' % (1 if tier == 'quick' else 4),
